@@ -1,13 +1,18 @@
 import Vegeta.Go.Proto
 import Vegeta.Model.Metrics
+import Vegeta.Model.MetricsText
 /-! Driver operations of property C10 (ops are named `c10.<name>`).
 
 `c10.run n op₁ … opₙ` with `op = a <code> <ts> <latency> <bytesOut> <bytesIn> <errorhex>` (Add)
 or `c` (Close); the model runs the calls on a fresh `Metrics`, closes once more and prints
 every exported field (floats as bit patterns).
-`c10.seconds d` prints the bits of `Duration(d).Seconds()`. -/
+`c10.seconds d` prints the bits of `Duration(d).Seconds()`.
+`c10.durround d m` prints `Duration(d).Round(m)`; `c10.round d` prints `round(d)` of lib/reporters.go and its `String()`; `c10.fix2 bits` prints `%.2f` of the float.
+`c10.text p50 p90 p95 p99 n op₁ … opₙ` prints the cells of the text report of the closed metrics.
+`c10.loop n r₁ … rₙ k e₁ … eₖ` (results without the `a` tag; events `t` tick, `d` decode, `i` interrupt)
+runs the report command's loop and prints every report it writes. -/
 namespace Vegeta.Driver.C10
-open Vegeta.Go Vegeta.Go.Proto Vegeta.Model.Metrics
+open Vegeta.Go Vegeta.Go.Proto Vegeta.Model.Metrics Vegeta.Model.MetricsText
 
 def opP : P Op := do
   let t ← tok
@@ -40,6 +45,24 @@ def showReport (r : Report) : String :=
   " rate=" ++ showF r.rate ++ " thr=" ++ showF r.throughput ++ " succ=" ++ showF r.successRatio ++
   " errs=" ++ showBytesList r.errors
 
+def resP : P Result := do
+  let code ← nat
+  let ts ← int
+  let lat ← int
+  let bo ← nat
+  let bi ← nat
+  let e ← bytes
+  pure { code := code, timestamp := ts, latency := lat, bytesOut := bo, bytesIn := bi, error := e }
+
+def evP : P Ev := do
+  let t ← tok
+  if t == "t" then pure Ev.tick else if t == "d" then pure Ev.decode else if t == "i" then pure Ev.interrupt else failure
+
+def showText (t : TextReport) : String :=
+  "ok rows=" ++ toString t.rows.length ++
+  t.rows.foldl (fun s (l, h, v) => s ++ " " ++ hexEncode l ++ "|" ++ hexEncode h ++ "|" ++ hexEncode v) "" ++
+  " errs=" ++ showBytesList t.errors
+
 def handle (op : String) (args : List String) : Option String :=
   match op with
   | "c10.run" => do
@@ -48,6 +71,23 @@ def handle (op : String) (args : List String) : Option String :=
   | "c10.seconds" => do
     let (d, _) ← (int).run args
     pure ("ok " ++ showF (seconds d))
+  | "c10.round" => do
+    let (d, _) ← (int).run args
+    pure ("ok " ++ toString (round d) ++ " " ++ hexEncode (Duration.toString (round d)))
+  | "c10.durround" => do
+    let ((d, m), _) ← (do let d ← int; let m ← int; pure (d, m)).run args
+    pure ("ok " ++ toString (durRound d m))
+  | "c10.fix2" => do
+    let (b, _) ← (nat).run args
+    pure ("ok " ++ hexEncode (fmtFixed2 ⟨b⟩))
+  | "c10.text" => do
+    let ((p, ops), _) ← (do let a ← int; let b ← int; let c ← int; let d ← int; let ops ← listOf opP; pure ((a, b, c, d), ops)).run args
+    pure (showText (textReport (report (close (run Metrics.init ops))) p.1 p.2.1 p.2.2.1 p.2.2.2))
+  | "c10.loop" => do
+    let ((rs, evs), _) ← (do let rs ← listOf resP; let evs ← listOf evP; pure (rs, evs)).run args
+    let s := loopRun rs evs
+    pure ("ok done=" ++ (if s.done then "1" else "0") ++ " reports=" ++ toString s.out.length ++
+      s.out.foldl (fun acc r => acc ++ " | " ++ showReport r) "")
   | _ => none
 
 end Vegeta.Driver.C10
